@@ -715,3 +715,22 @@ ENTRY(c09_rep_line, f_rep_line, f_rep_1xx, f_rep_limit)
 ENTRY(c09_rep_hdr, f_rep_hdr, f_rep_dates)
 ENTRY(c09_rep_fields, f_rep_fields, f_rep_fields2)
 ENTRY(c09_rep_chunked, f_rep_chunked, f_rep_chunked2)
+
+// A Host field value around the size of the 1024-byte static buffer getHostHeaderField() copies it into (intercepting port): 1021..1026
+// value bytes, all 'a' except the last, which is symbolic; delivered in one piece
+extern "C" void c09_req_long_host(void)
+{
+    configure(relaxedSetting(false), 65536, 65536);
+    static uint8_t in[1200];
+    unsigned n = 0;
+    for (const char *c = "GET / HTTP/1.1\r\nHost: "; *c; ++c) in[n++] = (uint8_t)*c;
+    const unsigned len = 1021 + (unsigned)vf_concretize(vf_range(0, 5, "hostLength"));
+    for (unsigned i = 0; i + 1 < len; ++i) in[n++] = 'a';
+    in[n++] = vf_nondet_u8("b");
+    for (const char *c = "\r\n\r\n"; *c; ++c) in[n++] = (uint8_t)*c;
+    Client c(65536, true, true);
+    c.read(in, n);
+    vf_observe("ok", c.nOk); vf_observe("err", c.nErr); vf_observe("left", c.inBuf.length());
+    vf_reach(c.nOk ? "request-accepted" : c.nErr ? "request-refused" : "request-incomplete");
+    WITNESS_POINT();
+}
